@@ -115,6 +115,18 @@ def build_all(models=None, targets=None, jobs=16):
         # half-edited file of another property cannot break this one
         tg = "" if targets is None else " ".join(targets)
         rc, o = sh("timeout 1500 make -j%d %s 2>&1" % (jobs, tg), 1600, cwd=COQ)
+        if rc and "No rule to make target" in o:
+            # a .v file listed in the Makefile vanished (somebody's scratch file): regenerate from a fresh glob, once
+            files = vfiles()
+            proj = "-Q . AV\n-arg -w -arg -notation-overridden,-deprecated,-non-recursive\n" + "\n".join(files) + "\n"
+            open(pj, "w").write(proj)
+            for stale in (".Makefile.d", "Makefile", "Makefile.conf"):
+                try:
+                    os.remove(os.path.join(COQ, stale))
+                except OSError:
+                    pass
+            sh("coq_makefile -f _CoqProject -o Makefile", 120, cwd=COQ)
+            rc, o = sh("timeout 1500 make -j%d %s 2>&1" % (jobs, tg), 1600, cwd=COQ)
         if rc:
             raise CheckAbort("coq build failed:\n" + o[-4000:])
         exs = sorted(glob.glob(os.path.join(COQ, "Run", "Ex*.v")))
@@ -268,15 +280,15 @@ class Check:
             return False
         disc = 0
         axioms_used = set()
-        for name, ax in zip(prints, blocks):
+        for thm, ax in zip(prints, blocks):
             okax = all(a in STDLIB_AXIOMS or a.split(".")[-1] in STDLIB_AXIOMS for a in ax)
-            self.cov["theorems"].append({"name": name, "axioms": ax, "accepted": okax})
+            self.cov["theorems"].append({"name": thm, "axioms": ax, "accepted": okax})
             axioms_used.update(ax)
-            if name in thms:
+            if thm in thms:
                 if okax:
                     disc += 1
                 else:
-                    self.broken_obligation("theorem %s depends on non-stdlib axioms %r" % (name, ax), out[-2000:])
+                    self.broken_obligation("theorem %s depends on non-stdlib axioms %r" % (thm, ax), out[-2000:])
         self.cov["discharged"] += disc
         self.cov["trusted_base"] += [
             "Coq 8.16.1 kernel (coqc; vm_compute used in refutation witnesses / sample re-evaluation; no native_compute)",
@@ -286,7 +298,15 @@ class Check:
 
     def coqchk(self, libs):
         cmd = "timeout 1500 coqchk -silent -o -Q . AV " + " ".join(libs)
-        rc, out = sh(cmd, 1600, cwd=COQ)
+        # hold the build lock: a concurrent rebuild of shared .vo files would make coqchk see inconsistent libraries
+        lock = open(os.path.join(COQ, ".lock"), "w")
+        fcntl.flock(lock, fcntl.LOCK_EX)
+        try:
+            sh("timeout 1500 make -j8 %s 2>&1" % " ".join(l.replace("AV.", "").replace(".", "/") + ".vo" for l in libs), 1600, cwd=COQ)
+            rc, out = sh(cmd, 1600, cwd=COQ)
+        finally:
+            fcntl.flock(lock, fcntl.LOCK_UN)
+            lock.close()
         self.cov["coqchk"] = {"cmd": cmd, "rc": rc, "tail": out[-1500:]}
         if rc:
             self.broken_obligation("coqchk failed", out[-3000:])
